@@ -21,7 +21,7 @@ CHECKS = ('c06', 'c08')
 def budget(tier):
     if tier == 'quick':
         return {'shards': 16, 'examples': 40, 'steps': 22, 'wall': 240}
-    return {'shards': 16, 'examples': 300, 'steps': 32, 'wall': 2400}
+    return {'shards': 16, 'examples': 3000, 'steps': 32, 'wall': 2400}
 
 
 def outcome_of(sim, case):
